@@ -151,6 +151,15 @@ RewardAccrues(dt, em, L)     == ~(L \doteq 0) /\ ~(dt \doteq 0) /\ ~(WrapMod \pr
 RewardGrowthDelta(dt, em, L) == IF RewardAccrues(dt, em, L) THEN BDiv(dt \otimes em, L) ELSE 0
 
 -----------------------------------------------------------------------------
+(* Adaptive fee (C14), parametric in the scale factors so that the toy model (AdaptiveFee.tla) and the
+   trace specification share the definitions.  Accumulator of tick group g given the reference; adaptive
+   and total rate of an accumulator value.                                                       *)
+AfAccOf(volRef, groupRef, g, scale, maxAcc) == BMin(volRef ++ (BAbs(groupRef -- g) \otimes scale), maxAcc)
+AfRateOf(factor, groupSize, acc, den, hard) ==
+  LET crossed == acc \otimes groupSize IN BMin(CeilDiv(factor \otimes (crossed \otimes crossed), den), hard)
+AfTotalOf(static, factor, groupSize, acc, den, hard) == BMin(static ++ AfRateOf(factor, groupSize, acc, den, hard), hard)
+
+-----------------------------------------------------------------------------
 (* Token-2022 transfer fees (C16).  c = [bps, max]. *)
 TfFee(c, x) == IF c.bps = 0 \/ x \doteq 0 THEN 0 ELSE BMin(MulDivCeil(x, c.bps, 10000), c.max)
 TfExcluded(c, x) == x -- TfFee(c, x)
